@@ -1106,6 +1106,16 @@ func (fr *frame) special(b *ssa.BasicBlock, site ssa.Instruction, name string, c
 		x.sc.declFun("errclass", []string{"Int", "Int"}, "Int")
 		x.sc.assert(eq(app("errclass", res.ts[0], res.ts[1]), app("errclass", args[0].ts[0], args[0].ts[1])))
 		return res, h, true
+	case "errors.Is", "github.com/pkg/errors.Is":
+		// a function of the two error values; a nil error matches only a nil target, an error matches itself
+		if len(args) != 2 || len(args[0].ts) != 2 || len(args[1].ts) != 2 {
+			return Val{}, h, false
+		}
+		x.sc.declFun("errorsIs", []string{"Int", "Int", "Int", "Int"}, "Bool")
+		r := app("errorsIs", args[0].ts[0], args[0].ts[1], args[1].ts[0], args[1].ts[1])
+		x.sc.assert(implies(and(r, eq(args[0].ts[0], "0")), eq(args[1].ts[0], "0")))
+		x.sc.assert(implies(and(eq(args[0].ts[0], args[1].ts[0]), eq(args[0].ts[1], args[1].ts[1])), r))
+		return Val{ts: []Term{r}}, h, true
 	case "(encoding/binary.littleEndian).PutUint64", "(encoding/binary.littleEndian).Uint64":
 		// args: receiver (empty struct), b []byte, [v uint64]
 		bi := len(args) - 1
